@@ -61,13 +61,14 @@ def run_one(c, env, clk):
     """Seeded op; with c['twice'] the same call is issued twice on the SAME (warmed) object: both
     results are returned and must be equal ('regardless of what was called before')."""
     if c.get("twice"):
-        t = _tree(c)
-        w = c.get("warm")
-        if w:
-            t.subtree_reconfigure_(subtree_size=w["subtree_size"], maxiter=w["maxiter"], seed=w["seed"], select="random")
         c2 = dict(c)
         c2.pop("twice")
-        c2["_tree_obj"] = t
+        if c.get("ssa_path") is not None:
+            t = _tree(c)
+            w = c.get("warm")
+            if w:
+                t.subtree_reconfigure_(subtree_size=w["subtree_size"], maxiter=w["maxiter"], seed=w["seed"], select="random")
+            c2["_tree_obj"] = t
         r1 = run_one(c2, env, clk)
         r2 = run_one(c2, env, clk)
         return {"first": r1, "second": r2, "same": canon(r1) == canon(r2)}
